@@ -2,7 +2,7 @@
    one call, or more than 2^40 accumulated in the rate span) is the only internal_error left;
    it is excluded under an explicit condition on the bytes reported between ticks. *)
 From Coq Require Import List NArith Bool Lia PeanoNat.
-From LTV.C12 Require Import ParamsGen.
+From LTV.C12 Require Import ParamsGen PolicyGen.
 From LTV.C12 Require Import Model ProofsA ProofsB ProofsC ProofsD ProofsE ProofsF ProofsG.
 Import ListNotations.
 Local Open Scope N_scope.
